@@ -66,12 +66,12 @@ def arrival_order(rep, tier):
   rep.coverage['evaluations'] = rep.coverage.get('evaluations', 0) + runs
 
 
-def sibling_scopes(rep, tier):
+def sibling_scopes(rep, tier, salt='c07-siblings'):
   """Sibling aggregating expressions / negations of one rule that use the SAME local variable name, a later
   one using the value of an earlier one: renaming the locals apart must not change the rows, and both must
   be the rows computed directly from the facts."""
   from vlib import logica_run
-  r = common.rng('c07-siblings')
+  r = common.rng(salt)
   n = 12 if tier == 'quick' else 200
   runs = bad = 0
   AGG = {'Sum': sum, 'Max': max, 'Min': min}
